@@ -1222,9 +1222,12 @@ NodesById Graph::buildUniqueBendPoints(void) {
         Edge_SP &e = pair.second;
         vector<Point> route = e->getRoute();
         // If the route does not contain at least three points, then it has no bends,
-        // so we skip this Edge.
+        // so we skip this Edge, after dropping any bend nodes left from an earlier route.
         size_t N = route.size();
-        if (N < 3) continue;
+        if (N < 3) {
+            e->setBendNodes(Nodes());
+            continue;
+        }
         // Otherwise we need to prepare the vector of bend Nodes on this Edge's route.
         Nodes routeBends;
         // For display/testing purposes, we want the bend nodes we create to
